@@ -734,15 +734,95 @@ def judge_noise(case):
         else:
             parts = [(noise.C_1, sh.C_1, noise.coords_1), (noise.C_2, sh.C_2, noise.coords_2)]
         obs = [(np.array(c0), np.array(c1), [np.array(k, dtype=float) for k in coords]) for c0, c1, coords in parts]
+        case_synth = synth_observation(case, g, fac, noise, orig)
+        if case_synth is not None:
+            obs = SynthObs(obs)
+            obs.synth = case_synth
     return bad, obs, counts
 
 
+class SynthObs(list):
+    synth = None
+
+
+SYNTH_MAX_M = 256
+SYNTH_MAX_WORK = 12000      # points x coefficients
+
+
+def _lcm(a, b):
+    from math import gcd
+    return a * b // gcd(a, b)
+
+
+def synth_observation(case, g, fac, noise, screen):
+    """What `Shift.synth` needs to reproduce `noise()` exactly: the output points, and per Fourier grid (one for the FFT
+    noise, two for the multiscale noise) the frequency axes in *turns per unit length* as exact rationals (validated
+    against the real grid's floats to 1e-12) and the real coefficients times the real quadrature weight / (2 pi)^2.
+    None if the case is too big for the exact character (M = common denominator of all phases, in turns)."""
+    if case['cls'] == 'fft':
+        parts = [(noise.C, fac.input_grid)]
+    else:
+        parts = [(noise.C_1, fac.input_grid_1), (noise.C_2, fac.input_grid_2)]
+    xs, ys = [[Fraction(float(v)) for v in ax] for ax in g.separated_coords]
+    M, out = 4, []
+    for C, ig in parts:
+        if not ig.is_separated:
+            return None
+        axes = []
+        for ax, pts in zip(ig.separated_coords, (xs, ys)):
+            fr = [Fraction(float(v) / (2 * np.pi)).limit_denominator(1 << 16) for v in ax]
+            if any(abs(float(f) * 2 * np.pi - float(v)) > 1e-12 * max(1.0, float(np.abs(ax).max())) for f, v in zip(fr, ax)):
+                return None
+            for f in fr:
+                for x in pts:
+                    M = _lcm(M, (f * x).denominator)
+                    if M > SYNTH_MAX_M:
+                        return None
+            axes.append(fr)
+        c = np.array(C) * ig.weights / (2 * np.pi) ** 2
+        if c.size != len(axes[0]) * len(axes[1]) or c.size * len(xs) * len(ys) > SYNTH_MAX_WORK:
+            return None
+        out.append((axes[0], axes[1], [float(v) for v in c.real], [float(v) for v in c.imag]))
+    return {'M': M, 'xs': xs, 'ys': ys, 'parts': out, 'screen': np.array(screen, dtype=float).ravel()}
+
+
 def noise_lines(case, obs):
-    return ['C15 phases %s %s %s %s' % (rat(case['shift'][0]), rat(case['shift'][1]), rat_list(kx), rat_list(ky))
-            for (_, _, (kx, ky)) in obs]
+    lines = ['C15 phases %s %s %s %s' % (rat(case['shift'][0]), rat(case['shift'][1]), rat_list(kx), rat_list(ky))
+             for (_, _, (kx, ky)) in obs]
+    sy = getattr(obs, 'synth', None)
+    if sy is not None:
+        for kx, ky, cre, cim in sy['parts']:
+            lines.append('C15 synth %d %s %s %s %s %s %s' % (sy['M'], rat_list(sy['xs']), rat_list(sy['ys']), rat_list(kx), rat_list(ky),
+                                                            rat_list(cre), rat_list(cim)))
+    return lines
+
+
+def compare_synth(ctx, case, sy, out):
+    """`fourier.backward(C).real` of the real factory against `Shift.synth` run by the model with the exact character into
+    Q[Z/M]: the model's coefficient vector per point is evaluated at X = exp(2 pi i / M) here."""
+    M = sy['M']
+    zeta = np.exp(2j * np.pi * np.arange(M) / M)
+    tot = np.zeros(sy['screen'].size)
+    for resp in out:
+        ctx.traces_validated += 1
+        if not resp.startswith('ok '):
+            ctx.disagree('C15 synth', {'case': case, 'model': resp[:100], 'impl': 'a screen'}, key='noise-synthesis'); return
+        rows = [parse_rat_list(t) for t in resp.split()[1].split(';')]
+        if len(rows) != tot.size or any(len(r) != M for r in rows):
+            ctx.disagree('C15 synth', {'case': case, 'model': '%d points' % len(rows), 'impl': '%d points' % tot.size}, key='noise-synthesis'); return
+        tot += np.array([(np.array([float(a) for a in r]) * zeta).sum().real for r in rows])
+    ctx.count('noise:screens synthesised by the model (synth, exact character of order M)')
+    ctx.count('noise:synth M <= 32' if M <= 32 else 'noise:synth M <= 128' if M <= 128 else 'noise:synth M > 128')
+    ref = sy['screen']
+    if np.abs(tot - ref).max() > TOL * float(np.abs(ref).max()):
+        j = int(np.argmax(np.abs(tot - ref)))
+        ctx.disagree('C15 synth', {'case': case, 'flat_index': j, 'model': 'sum_j C_j w/(2pi)^2 chi(kx x + ky y), real part = %r' % tot[j],
+                                   'impl': 'noise() = %r' % ref[j]}, key='noise-synthesis')
 
 
 def compare_noise(ctx, case, obs, out):
+    if getattr(obs, 'synth', None) is not None:
+        compare_synth(ctx, case, obs.synth, out[len(obs):])
     for (c0, c1, _), resp in zip(obs, out):
         ctx.traces_validated += 1
         S = np.array([float(x) for x in parse_rat_list(resp.split()[1])])
@@ -971,6 +1051,9 @@ def gen_cross_case(rng, kind, big):
 
 def gen_noise_case(rng, big):
     nx, ny, dx, dy = gen_geometry(rng, big)
+    if rng.random() < 0.4:
+        # small grids: the model synthesises the whole screen with the exact character (`synth`)
+        nx, ny = int(rng.integers(2, 8)), int(rng.integers(2, 8))
     cls = str(rng.choice(['fft', 'multiscale']))
     vel = gen_wind(rng, dx, dy)
     m = float(rng.integers(1, 3)) if rng.random() < 0.6 else float(rng.integers(1, 12)) / 4.0
@@ -1057,6 +1140,11 @@ DIRECTED = [
     {'kind': 'noise', 'cls': 'fft', 'nx': 6, 'ny': 9, 'dx': 0.25, 'dy': 0.5, 'q': 2, 'L0': 10.0, 'seed': 3, 'shift': [0.5, 0.5]},
     {'kind': 'noise', 'cls': 'multiscale', 'nx': 9, 'ny': 6, 'dx': 0.25, 'dy': 0.25, 'q': 2, 'L0': 10.0, 'seed': 3, 'shift': [0.0, -0.5]},
     {'kind': 'noise', 'cls': 'multiscale', 'nx': 8, 'ny': 8, 'dx': 0.25, 'dy': 0.25, 'q': 4, 'L0': 10.0, 'seed': 3, 'shift': [0.3125, 0.0]},
+    # small grids, synthesised by the model point by point (even/odd sizes, anisotropic pixels, oversampled FFT, both multiscale factors)
+    {'kind': 'noise', 'cls': 'fft', 'nx': 4, 'ny': 4, 'dx': 0.25, 'dy': 0.25, 'q': 1, 'L0': 10.0, 'seed': 5, 'shift': [0.25, 0.0]},
+    {'kind': 'noise', 'cls': 'fft', 'nx': 3, 'ny': 5, 'dx': 0.5, 'dy': 0.125, 'q': 3, 'L0': 10.0, 'seed': 5, 'shift': [0.5, 0.125]},
+    {'kind': 'noise', 'cls': 'multiscale', 'nx': 5, 'ny': 4, 'dx': 0.25, 'dy': 0.5, 'q': 2, 'L0': 10.0, 'seed': 5, 'shift': [0.0, 0.5]},
+    {'kind': 'noise', 'cls': 'multiscale', 'nx': 6, 'ny': 3, 'dx': 1.0, 'dy': 1.0, 'q': 4, 'L0': 10.0, 'seed': 5, 'shift': [1.5, -1.0]},
 ]
 
 
